@@ -38,7 +38,14 @@ CATALOG = [
     ("{o}(i,j) = A(i,j) - D(i,j)", "dd", {"A": "A", "D": "D"}),
     ("{o}(i,j) = A(i,j)", "ss", {"A": "D"}),
     ("{o}(i) = y(i) * y(i)", "s", {"y": "y"}),
+    # one tensor mentioned more than once with different indexes (C is square in every variant and
+    # x fits it): kernels whose generation has per-mention state
+    ("{o}(i) = C(i,j) * x(j) + x(i)", "d", {"C": "C", "x": "x"}),
+    ("{o}(i,j) = C(i,j) + C(i,k) * C(k,j)", "dd", {"C": "C"}),
+    ("{o}() = x(i) * C(i,j) * x(j)", "", {"C": "C", "x": "x"}),
 ]
+REPEATED = (12, 13, 14)
+SINGLE_OPERAND = (5, 8, 10)
 SHARED = {"A": ((3, 3), "ds"), "B": ((3, 3), "ds"), "C": ((3, 3), "d1s0"), "D": ((3, 3), "dd"),
           "x": ((3,), "d"), "y": ((3,), "s"), "T": ((2, 2, 2), "sss")}
 # argument sets of different dimensions: concurrent calls of one cached method get different ones
@@ -156,7 +163,29 @@ def gen_plan(seed, cfg):
     plan = {"engine": "T", "run_seed": seed, "hashseed": seed % 8, "n": n, "mode": mode, "problems": problems,
             "threads": threads, "data": data, "sched": sp, "heap": hk,
             "capacity": rng.choice([1, 1, 2, 3, 8, 1 << 20]), "decisions": None}
-    if rng.random() < (0.03 if tier == "quick" else 0.05):
+    r_sweep = rng.random()
+    if r_sweep >= 0.9:
+        # generation race: two threads generate two DIFFERENT never-seen kernels at the same time; the
+        # victim is parked before each of its accesses to module-level state that a solo generation
+        # was seen to mutate (counters, memo tables, "current ..." globals), one position per run,
+        # while the partner runs its whole call.  On a tree without such state this is a single run.
+        plan["mode"] = "gen_race"
+        plan["n"] = 2
+        cv = rng.choice(REPEATED) if rng.random() < 0.6 else rng.randrange(len(CATALOG))
+        # partners of different sizes: what a shared counter or memo does to the victim depends on how
+        # much of it the partner consumes (half of the partners mention a single operand)
+        cp = rng.choice(SINGLE_OPERAND) if rng.random() < 0.5 else \
+            rng.choice([c for c in range(len(CATALOG)) if c != cv])
+        be = "cffi" if rng.random() < 0.1 else "llvm"
+        plan["problems"] = [
+            {"catalog": cv, "name": f"o{seed % 100000:05d}v", "backend": be, "entry": rng.choice(ENTRY_POINTS),
+             "prewarm": False},
+            {"catalog": cp, "name": f"o{seed % 100000:05d}p", "backend": be, "entry": rng.choice(ENTRY_POINTS),
+             "prewarm": False}]
+        va = rng.choice([0, 1, 2])
+        plan["threads"] = [[[0, va]], [[1, va]]]
+        plan["park_sweep"] = {"thread": 0, "max": 40, "kind": "shared"}
+    elif r_sweep < (0.03 if tier == "quick" else 0.05):
         # enumeration run: two threads, one shared method (compiled or not), every shared write of
         # the victim thread tried as the parking position
         plan["mode"] = "park_sweep"
@@ -249,18 +278,37 @@ def _write_lines(code):
     return frozenset(lines)
 
 
-def _make_tracer(s: Sched):
+def _shared_lines(code, names):
+    """Lines of a code object that load, store or delete one of the given module-level names."""
+    import dis
+
+    lines = set()
+    cur = None
+    for ins in dis.get_instructions(code):
+        if ins.starts_line is not None:
+            cur = ins.starts_line
+        if cur is None:
+            continue
+        if ins.opname in ("STORE_GLOBAL", "DELETE_GLOBAL"):
+            lines.add(cur)
+        elif ins.opname == "LOAD_GLOBAL" and ins.argval in names:
+            lines.add(cur)
+    return frozenset(lines)
+
+
+def _make_tracer(s: Sched, shared_names=None):
+    shared_names = shared_names or {}
     hot = _state["hot"]
     cold = _state["cold"]
     windows = _state["windows"]
 
     opcodes = bool(s.params.get("opcodes"))
 
-    def mk(is_hot, short, window, wlines=frozenset()):
+    def mk(is_hot, short, window, wlines=frozenset(), slines=frozenset()):
         def local(frame, event, arg):
             if event == "line":
                 ln = frame.f_lineno
-                s.point(f"{short}:{ln}", is_hot, ln in wlines)
+                s.point(f"{short}:{ln}", is_hot, ln in wlines, ln in slines)
             elif event == "opcode":
                 s.point(f"{short}:{frame.f_lineno}+{frame.f_lasti}", is_hot)
             elif event == "return" and window is not None:
@@ -286,7 +334,8 @@ def _make_tracer(s: Sched):
                 loc = mk(True, os.path.basename(f), w, _write_lines(code) if f.startswith(hot[:2]) else frozenset()), \
                     w, f.startswith(hot[:2])
             elif f.startswith(cold):
-                loc = mk(False, os.path.basename(f), None), None, False
+                loc = mk(False, os.path.basename(f), None, frozenset(),
+                         _shared_lines(code, shared_names.get(f, ()))), None, False
             else:
                 loc = (None, None, False)
             cache[code] = loc
@@ -314,12 +363,13 @@ def run_plan(plan, cfg=None):
 
     first = None
     covered = 0
+    shared = sw.get("kind") == "shared"
+    probe = "parked_at_shared_access" if shared else "parked_at_shared_write"
     for k in range(1, sw["max"] + 1):
         p = copy.deepcopy(plan)
         p["park_sweep"] = None
         p["decisions"] = None
-        p["sched"] = {"strategy": "pct_writes", "p_hot": 0.0, "p_cold": 0.0, "p_gc": 0.0,
-                      "park_at": {str(sw["thread"]): k}, "first": sw["thread"]}
+        p["sched"] = _sweep_sched(sw, k)
         r = _run_once(p, cfg)
         if first is None:
             first = r
@@ -333,13 +383,71 @@ def run_plan(plan, cfg=None):
                 plan.update(p)  # the failing position becomes the plan of record
             r.setdefault("probes", {})["park_sweeps"] = 1
             return r
-        if not r["probes"].get("parked_at_shared_write"):
-            break  # the victim has fewer than k shared writes: every position was covered
+        if not r["probes"].get(probe):
+            break  # the victim has fewer than k such lines: every position was covered
         covered += 1
-    first["probes"]["park_sweeps"] = 1
-    first["probes"]["park_positions_enumerated"] = covered
+    first["probes"]["generation_race_sweeps" if shared else "park_sweeps"] = 1
+    first["probes"]["shared_access_positions_enumerated" if shared else "park_positions_enumerated"] = covered
     first["shape"] = f"sweep:{first.get('shape')}"
     return first
+
+
+def _sweep_sched(sw, k):
+    if sw.get("kind") == "shared":
+        return {"strategy": "pct_shared", "p_hot": 0.0, "p_cold": 0.0, "p_gc": 0.0,
+                "park_at_shared": {str(sw["thread"]): k}, "first": sw["thread"]}
+    return {"strategy": "pct_writes", "p_hot": 0.0, "p_cold": 0.0, "p_gc": 0.0,
+            "park_at": {str(sw["thread"]): k}, "first": sw["thread"]}
+
+
+_IMMUTABLE_GLOBALS = None
+
+
+def _module_state():
+    """Fingerprint of the module-level state of every tensora module outside compile/ and tensor.py:
+    (module file, global name) -> (identity, cheap rendering).  Compared before and after a solo
+    generation to find the names whose objects a generation rebinds or mutates."""
+    import types
+
+    global _IMMUTABLE_GLOBALS
+    if _IMMUTABLE_GLOBALS is None:
+        _IMMUTABLE_GLOBALS = (int, float, str, bytes, bool, type(None), tuple, frozenset, complex,
+                              types.ModuleType, types.FunctionType, types.BuiltinFunctionType)
+    hot = _state["hot"]
+    out = {}
+    for name, mod in list(sys.modules.items()):
+        if not name.startswith("tensora") or mod is None:
+            continue
+        f = getattr(mod, "__file__", None)
+        if not f or f.startswith(hot[:2]):
+            continue
+        for k, v in list(vars(mod).items()):
+            if k.startswith("__") or isinstance(v, _IMMUTABLE_GLOBALS):
+                continue
+            try:
+                if isinstance(v, type):
+                    if getattr(v, "__module__", None) != name:
+                        continue
+                    fp = tuple(sorted((a, repr(b)[:60]) for a, b in vars(v).items()
+                                      if not a.startswith("__") and not callable(b)
+                                      and not isinstance(b, (property, classmethod, staticmethod))
+                                      and not hasattr(b, "__get__")))
+                elif isinstance(v, (dict, list, set)) or hasattr(v, "__len__"):
+                    fp = (len(v), repr(v)[:400])
+                else:
+                    fp = repr(v)[:400]
+            except Exception:
+                continue
+            out[(f, k)] = (id(v), fp)
+    return out
+
+
+def _state_diff(a, b):
+    names = {}
+    for key in set(a) | set(b):
+        if a.get(key) != b.get(key):
+            names.setdefault(key[0], set()).add(key[1])
+    return names
 
 
 def _run_once(plan, cfg=None):
@@ -378,12 +486,15 @@ def _run_once(plan, cfg=None):
         problems = plan["problems"]
         # ---- reference phase: each distinct call alone, cold cache, untraced
         ref = {}
+        want_shared = plan["sched"].get("strategy") == "pct_shared"
+        fp0 = _module_state() if want_shared else None
         for pi, v in calls:
             try:
                 ref[(pi, v)] = ("ok", _raw(_do_call(problems[pi], tensors[v])))
             except Exception as e:
                 ref[(pi, v)] = ("exc", type(e).__name__)
                 del e
+        shared_names = _state_diff(fp0, _module_state()) if want_shared else {}
         _porcelain.cachable_tensor_method.cache_clear()
         for p in problems:
             if p["prewarm"]:
@@ -403,7 +514,10 @@ def _run_once(plan, cfg=None):
         results = [[] for _ in range(n)]
         owned = [[] for _ in range(n)]  # per call: ids of the blocks of its output
         errors = [None] * n
-        tracer = _make_tracer(s)
+        tracer = _make_tracer(s, shared_names)
+        if shared_names:
+            s.probe("module_level_names_mutated_by_a_generation",
+                    sum(len(v) for v in shared_names.values()))
 
         def heap_hook(label):
             me = s.tid()
@@ -591,8 +705,7 @@ def shrink_candidates(plan):
             p = copy.deepcopy(plan)
             p["park_sweep"] = None
             p["decisions"] = None
-            p["sched"] = {"strategy": "pct_writes", "p_hot": 0.0, "p_cold": 0.0, "p_gc": 0.0,
-                          "park_at": {str(sw["thread"]): k}, "first": sw["thread"]}
+            p["sched"] = _sweep_sched(sw, k)
             yield p
         return
     dec_ = plan.get("decisions") or []
